@@ -164,10 +164,50 @@ class ExprMixin:
             h = ec.get(ast.unparse(node))
             if h is not None:
                 return h(self, env, path)
+            h2 = self._expr_contract_modulo_names(ec, node, env, path)
+            if h2 is not None:
+                return h2()
         m = getattr(self, "e_" + node.__class__.__name__, None)
         if m is None:
             raise Unsupported(f"expression {node.__class__.__name__} at line {getattr(node, 'lineno', '?')}")
         return m(node, env, path, merge)
+
+    def _expr_contract_modulo_names(self, ec, node, env, path):
+        """An expression contract also applies when the expression differs from its text only in (a) a name bound to a
+        constant tuple / string / number standing where the contract has the literal, and (b) the name of the one variable a
+        contract marks as its subject with '\u00a7' (the handler then receives the value of that variable as `subject`)."""
+        import copy as _copy
+        bound = {n.id for g in ast.walk(node) if isinstance(g, ast.comprehension) for n in ast.walk(g.target) if isinstance(n, ast.Name)}
+        free = []
+        for n in ast.walk(node):
+            if isinstance(n, ast.Name) and n.id not in bound and n.id not in free:
+                free.append(n.id)
+        consts = {}
+        for nm in free:
+            v = env.lookup(nm)
+            if isinstance(v, (str, int)) and not isinstance(v, bool) or (isinstance(v, tuple) and v and all(isinstance(x, str) for x in v)):
+                consts[nm] = v
+
+        class Sub(ast.NodeTransformer):
+            def __init__(self, subject):
+                self.subject = subject
+
+            def visit_Name(self, n):
+                if n.id == self.subject:
+                    return ast.copy_location(ast.Name(id="\u00a7", ctx=n.ctx), n)
+                if n.id in consts and isinstance(n.ctx, ast.Load):
+                    v = consts[n.id]
+                    lit = ast.Tuple(elts=[ast.Constant(value=x) for x in v], ctx=ast.Load()) if isinstance(v, tuple) else ast.Constant(value=v)
+                    return ast.copy_location(lit, n)
+                return n
+        for subject in [None] + [f for f in free if f not in consts]:
+            key = ast.unparse(ast.fix_missing_locations(Sub(subject).visit(_copy.deepcopy(node))))
+            h = ec.get(key)
+            if h is not None:
+                if subject is None:
+                    return lambda: h(self, env, path)
+                return lambda: h(self, env, path, subject=env.lookup(subject))
+        return None
 
     def e_Constant(self, node, env, path, merge):
         return node.value
